@@ -228,7 +228,7 @@ def resolveContainerT (g : Cfg) : Bool → Nat → String → String → Nat →
   | serial, fuel + 1, st, rt, id, sels, path, s =>
     let fs := (occsOf g rt (fuel + 1) st sels).map (fun occ => runFieldT g (resolveContainerT g g.nestedSerial fuel) rt id path occ)
     let j := if serial then joinSer s fs else joinPar s (fs.map (· s))
-    ofJoin j (fun vs => createValueObject (fuel + 1) (vs.filterMap singleKV))
+    ofJoin j (fun vs => createValueObject g.c.D (fuel + 1) (vs.filterMap singleKV))
 
 def runWith (nestedSerial : Bool) (D : ExecStatic.Defects) (perOcc : Bool) (gate : Gate) (S : Schema) (d : Doc)
     (opName : Option String) (raw : List (String × GValue)) (w : World) (fuel : Nat) : TRes :=
